@@ -4,7 +4,7 @@ import vlib
 from vlib import Result, log
 from arena import Arena
 
-THEOREMS = ["C03_segment_roundtrip", "C03_segment_stays_one", "C03_layout_exploded", "C03_layout_joined", "C03_layout_absent",
+THEOREMS = ["C03_segment_roundtrip", "C03_segment_stays_one", "C03_layout_exploded", "C03_layout_joined", "C03_layout_absent", "C03_explode_default_from_source",
             "C03_joined_ambiguous_refuted", "C03_nonvacuous"]
 TARGETS = ["Props/C03.v", "Extract/C03.v"]
 
@@ -234,6 +234,9 @@ def main(tier, seed, replay=None):
     res = Result("C03", tier, seed)
     vlib.build_repo()
     vlib.build_vtool()
+    rep = vlib.translate()
+    r = rep.get("Params.v", {"ok": False, "error": "missing"})
+    res.oblige("translator: Gen/Params.v regenerated from current source", r.get("ok"), r.get("error", ""))
     coq_ok, out = vlib.standard_coq_obligations(res, TARGETS, THEOREMS, expect_closed=4)
     exe = vlib.ocaml_build("c03")
     res.oblige("extracted model (pct_decode, enc_segment, layout, split) builds", exe is not None)
